@@ -2,6 +2,7 @@ import Model.Dkg
 import Proofs.DkgFlags
 import Props.C08
 import Proofs.DkgRounds
+import Proofs.DkgJoint
 
 /-! # C07 — DKG: honest participants agree on the verdict and on consistent keys
 
@@ -9,9 +10,10 @@ Model-level theorems about what `End` returns (every crypto-operations record, e
 **schedule quantifier**: at an honest participant of Feldman-VSS-Qual other than the dealer, any two deliveries
 the network may reorder commute (`delivery_pair_commutes`), the state after a round does not depend on the
 delivery order (`round_order_independent`), and `End` returns the same verdict and keys for every delivery
-order of each round (`end_result_order_independent`). What remains by correspondence only: the relation
-between *different* participants of one execution (their inputs differ by the private shares), and the
-dealer-side instance inside Joint-Feldman. -/
+order of each round (`end_result_order_independent`); the same for Joint-Feldman, where the participant is also
+the dealer of one of the `n` parallel instances (`joint_end_order_independent`). What remains by correspondence
+only: the relation between *different* participants of one execution (their inputs differ by the private
+shares). -/
 
 namespace Props.C07
 open Model Model.Dkg
@@ -112,6 +114,29 @@ theorem end_result_order_independent (s : St O) (inv : Inv s) (r1 r1' r2 r2' r3 
   exec_order_independent s inv r1 r1' r2 r2' r3 r3' h1 h2 h3
 
 open Proofs.DkgCommute in
+/-- **Joint-Feldman**: all `n` instances of a participant (its own dealing and the `n-1` it receives) see the same
+    deliveries; the result of `End` (failure, or private share / group key / key shares) is the same for every
+    delivery order of the three rounds -/
+theorem joint_end_order_independent (size threshold : Nat) (L : List (St O)) (hinv : ∀ s ∈ L, InvAny s)
+    (r1 r1' r2 r2' r3 r3' : List Dl) (h1 : ∀ c, stream r1 c = stream r1' c) (h2 : ∀ c, stream r2 c = stream r2' c)
+    (h3 : ∀ c, stream r3 c = stream r3' c) :
+    jres size threshold (L.map (fun s => runRounds s r1 r2 r3)) =
+      jres size threshold (L.map (fun s => runRounds s r1' r2' r3')) :=
+  joint_order_independent size threshold L hinv r1 r1' r2 r2' r3 r3' h1 h2 h3
+
+open Proofs.DkgCommute in
+/-- tie: a running Joint-Feldman participant handles deliveries and timeouts instance by instance, and `End`
+    computes `jres` of its instances -/
+theorem tie_joint (j : JSt O) (o : Nat) (m : Bytes) (hr : j.jointRunning = true) :
+    ((∀ s ∈ j.fvss, s.running = true ∧ o < s.size) →
+      (Joint.handleBroadcast j o m).1.fvss = j.fvss.map (fun s => Proofs.DkgCommute.step s (.bcast o m)) ∧
+      (Joint.handlePrivate j o m).1.fvss = j.fvss.map (fun s => Proofs.DkgCommute.step s (.priv o m))) ∧
+    ((∀ s ∈ j.fvss, s.running = true ∧ s.complaintsTimeout = false) → (Joint.nextTimeout j).1.fvss = j.fvss.map tstep) ∧
+    ((∀ s ∈ j.fvss, s.sharesTimeout = true ∧ s.complaintsTimeout = true) →
+      (Joint.end_ j).2.2 = jres j.size j.threshold j.fvss) :=
+  ⟨fun h => ⟨joint_bcast j o m hr h, joint_priv j o m hr h⟩, joint_timeout j hr, joint_end j hr⟩
+
+open Proofs.DkgCommute in
 /-- `step`, `tstep` and `endRes` are the bodies of `HandleBroadcastMsg` / `HandlePrivateMsg`, `NextTimeout` and
     `End` of the model on a running instance -/
 theorem tie_steps (s : St O) (o : Nat) (m : Bytes) (hr : s.running = true) (ho : o < s.size) :
@@ -137,3 +162,5 @@ end Props.C07
 #print axioms Props.C07.round_order_independent
 #print axioms Props.C07.end_result_order_independent
 #print axioms Props.C07.tie_steps
+#print axioms Props.C07.joint_end_order_independent
+#print axioms Props.C07.tie_joint
